@@ -21,7 +21,8 @@ EXTENDS Integers, TLC
 
 CONSTANTS Vals,       \* targets / start values explored
           Ramps,      \* distance per tick explored (0 = jump)
-          Shapes,     \* subset of {"ramp", "speed", "none"}: which rate parameter the module has
+          Shapes,     \* "ramp", "speed", "none": SimDrivable with that rate parameter / without one;
+                      \* "writable": SimWritable (value = target at once), "readable": SimReadable (constant)
           Jitters     \* values of the jitter parameter explored (even numbers; 0 = exact readings)
 
 VARIABLES hv, target, status, mode, sp, ramp, val, xp, shape, jit, last
@@ -37,19 +38,24 @@ Near(h) == (h - jit \div 2) .. (h + jit \div 2)
 
 DInit == /\ hv \in Vals /\ target \in Vals /\ val = hv /\ jit \in Jitters
          /\ status = "idle" /\ mode = "wait" /\ sp = 0
-         /\ shape \in Shapes /\ ramp \in (IF shape = "none" THEN {0} ELSE Ramps)
+         /\ shape \in Shapes /\ ramp \in (IF shape \in {"ramp", "speed"} THEN Ramps ELSE {0})
+         /\ shape \in {"writable", "readable"} => target = hv
          /\ xp = 0 /\ last = [op |-> "none"]
 
+Drivable == shape \in {"ramp", "speed", "none"}
 (* the status a target change has to leave behind *)
 AfterTarget(T) == IF T # hv THEN {"busy"} ELSE {status}
 
-SetTarget(T) == /\ target' = T /\ status' \in AfterTarget(T)
-                /\ last' = [op |-> "target"]
-                /\ UNCHANGED <<hv, mode, sp, ramp, val, xp, shape, jit>>
-Stop == /\ target' = val /\ status' \in AfterTarget(val)
+SetTarget(T) == /\ shape # "readable"
+                /\ target' = T /\ last' = [op |-> "target"]
+                /\ IF shape = "writable" THEN hv' = T /\ val' = T /\ UNCHANGED status
+                   ELSE status' \in AfterTarget(T) /\ UNCHANGED <<hv, val>>
+                /\ UNCHANGED <<mode, sp, ramp, xp, shape, jit>>
+Stop == /\ Drivable
+        /\ target' = val /\ status' \in AfterTarget(val)
         /\ last' = [op |-> "stop"]
         /\ UNCHANGED <<hv, mode, sp, ramp, val, xp, shape, jit>>
-SetRamp(r) == /\ shape # "none" /\ ramp' = r
+SetRamp(r) == /\ shape \in {"ramp", "speed"} /\ ramp' = r
               /\ last' = [op |-> "ramp"]
               /\ UNCHANGED <<hv, target, status, mode, sp, val, xp, shape, jit>>
 Read == /\ val' \in Near(hv) /\ last' = [op |-> "read", v |-> val']
@@ -63,7 +69,8 @@ ReadX == /\ last' = [op |-> "readx", v |-> xp]
 Tick ==
     /\ last' = [op |-> "tick"]
     /\ UNCHANGED <<target, ramp, xp, shape, jit>>
-    /\ IF hv = target
+    /\ IF ~Drivable THEN UNCHANGED <<hv, status, mode, sp, val>>
+       ELSE IF hv = target
        THEN /\ status' = "idle" /\ mode' = "wait" /\ val' \in {val} \cup Near(hv)
             /\ UNCHANGED <<hv, sp>>
        ELSE \E e \in (IF mode = "wait" THEN {ramp} ELSE {sp, ramp}) :
@@ -89,15 +96,16 @@ TypeOK == status \in {"idle", "busy"} /\ mode \in {"wait", "move"} /\ shape \in 
 (* never IDLE while the hardware value is away from the target (except at start-up, before the     *)
 (* first tick, when the configured value and target differ): a target change that needs a move      *)
 (* leaves BUSY behind, BUSY is only left on arrival, a tick that does not arrive leaves BUSY        *)
-BusyOnChange == [][(target' # target /\ target' # hv) => status' = "busy"]_dvars
+BusyOnChange == [][(target' # target /\ target' # hv') => status' = "busy"]_dvars
 BusyUntilArrival == [][(status = "busy" /\ status' = "idle") => hv' = target']_dvars
 BusyAfterTick == [][(last'.op = "tick" /\ hv' # target) => status' = "busy"]_dvars
 Between(a, x, b) == (a <= x /\ x <= b) \/ (b <= x /\ x <= a)
-NoOvershoot == [][hv' # hv => Between(hv, hv', target)]_dvars
+NoOvershoot == [][hv' # hv => Between(hv, hv', target')]_dvars
 RampRate == [][hv' # hv => (Abs(hv' - hv) <= sp' \/ sp' = 0)]_dvars
-Progress == [][(last'.op = "tick" /\ hv # target) => Abs(target - hv') < Abs(target - hv)]_dvars
-Settles == [][(last'.op = "tick" /\ hv = target) => (status' = "idle" /\ hv' = hv)]_dvars
-OnlyTickMoves == [][hv' # hv => last'.op = "tick"]_dvars
+Progress == [][(last'.op = "tick" /\ hv # target /\ Drivable) => Abs(target - hv') < Abs(target - hv)]_dvars
+Settles == [][(last'.op = "tick" /\ hv = target /\ Drivable) => (status' = "idle" /\ hv' = hv)]_dvars
+OnlyTickMoves == [][hv' # hv => (last'.op = "tick" \/ shape = "writable")]_dvars
+WritableFollows == (shape = "writable" /\ last.op = "target") => (hv = target /\ val = target)
 Storage == last.op = "readx" => last.v = xp
 ReadNear == last.op = "read" => (2 * Abs(last.v - hv) <= jit)
 (* model checking with jitter: stop takes a jittered reading as target, values drift - keep them in a window *)
